@@ -7,6 +7,7 @@ SRC=$1; NAME=$2; PROP=$3; shift 3
 CHECKS=${*:-$PROP}
 SV=/tmp/sv-$NAME.$$
 OUT=/verif/seeded/$NAME
+[ -e "$OUT" ] && { echo "seeded/$NAME exists already - choose another name"; exit 2; }
 git -C /repo worktree add -q $SV HEAD || exit 2
 trap 'git -C /repo worktree remove --force '$SV' >/dev/null 2>&1; rm -rf /verif/build/*-sv'$$'' EXIT
 mkdir -p $SV/seeded && cp $SRC/demo.c $SRC/run-demo.sh $SV/seeded/ 2>/dev/null
